@@ -74,10 +74,31 @@ pub fn dump_and_check(args: &Args) -> i32 {
             let r1: Vec<char> = lg.unicode_reduce(&[c]).map(|x| x.1).unwrap_or(vec![c]).into_iter().map(lower1).collect();
             let r2: Vec<char> = lg.unicode_reduce(&[l]).map(|x| x.1).unwrap_or(vec![l]).into_iter().map(lower1).collect();
             if r1 != r2 { bad.push(format!("case_closed[{}] U+{:04X}", code, cp)); }
+            // LowerKeyFree: lower-casing a character that the reduce table leaves alone never yields a table key
+            if lg.unicode_reduce(&[c]).is_none() && lg.unicode_reduce(&[l]).is_some() { bad.push(format!("lower_key_free[{}] U+{:04X}", code, cp)); }
         }
     }
     if !'\0'.is_control() { bad.push("nul_is_control".to_string()); }
 
+    // 2b. StemBounded (hypothesis about the third-party Snowball stemmers): exhaustive short words per language
+    let mut stem_checked = 0usize;
+    let mut stem_bad: Vec<String> = vec![];
+    let maxlen = if args.tier == "thorough" { 4 } else { 3 };
+    for code in crate::real::LANGS.iter().filter(|c| **c != "none") {
+        let lg = crate::real::make_lang(code);
+        let alpha: Vec<char> = crate::gen::vocab(code).letters.into_iter().filter(|c| lg.unicode_reduce(&[*c]).is_none()).collect();
+        let mut frontier: Vec<Vec<char>> = vec![vec![]];
+        for _ in 0..maxlen {
+            let mut next = Vec::with_capacity(frontier.len() * alpha.len());
+            for w in &frontier { for c in &alpha { let mut t = w.clone(); t.push(*c); next.push(t); } }
+            for w in &next {
+                stem_checked += 1;
+                let st = lg.stem(w);
+                if !(1 <= st && st <= w.len()) && stem_bad.len() < 10 { stem_bad.push(format!("{}: stem({:?}) = {}", code, w.iter().collect::<String>(), st)); }
+            }
+            frontier = next;
+        }
+    }
     // 3. float facts
     let consts = parse_consts(&args.consts);
     let mut float_bad: Vec<String> = vec![];
@@ -109,10 +130,11 @@ pub fn dump_and_check(args: &Args) -> i32 {
         }
     }
     float_bad.truncate(20);
-    let ok = bad.is_empty() && float_bad.is_empty() && consts.is_some();
+    let ok = bad.is_empty() && float_bad.is_empty() && consts.is_some() && stem_bad.is_empty();
     let mut j = String::from("{");
     let _ = write!(j, "\"ok\":{},\"scalars\":{},\"unicode_fact_violations\":{},\"unicode_bad\":[{}],", ok, scalars, bad.len(),
         bad.iter().take(20).map(|s| json_str(s)).collect::<Vec<_>>().join(","));
+    let _ = write!(j, "\"stem_words_checked\":{},\"stem_max_len\":{},\"stem_bad\":[{}],", stem_checked, maxlen, stem_bad.iter().map(|s| json_str(s)).collect::<Vec<_>>().join(","));
     let _ = write!(j, "\"titlecase_like\":{},\"case_closed_checked\":{},", titlecase_like, case_closed_checked);
     let _ = write!(j, "\"unlowerable_uppercase\":{},\"unlowerable_digest\":\"{:016x}\",", unlowerable.len(), { let mut h = 0xcbf29ce484222325u64; for c in &unlowerable { fnv1a(&mut h, &c.to_string()); } h });
     let _ = write!(j, "\"float_evaluations\":{},\"float_max_len\":{},\"float_bad\":[{}]}}", float_evals, n, float_bad.iter().map(|s| json_str(s)).collect::<Vec<_>>().join(","));
